@@ -163,23 +163,23 @@ var boundReqs = []boundReq{
 // reviewedBare: "function|descriptor" -> reason a bare (class D / W) wait is acceptable.
 var reviewedBare = map[string]string{
 	"grpcmux.GRPCServerMuxer.acceptSession|send grpcmux.GRPCServerMuxer.sessionErrCh": "rendezvous with session(), which every user of the muxer calls first; the channel is closed afterwards",
-	"grpcmux.GRPCServerMuxer.Accept|send local:chan grpcmux.acceptResult":            "hand-off of the accepted stream to the brokered listener registered for the knocked id (blockedServerListener.Accept)",
-	"grpcmux.GRPCServerMuxer.AcceptKnock|send grpcmux.GRPCServerMuxer.knockCh":       "capacity-1 token consumed by the muxer's Accept loop (R-SLOT checks the capacity)",
+	"grpcmux.GRPCServerMuxer.Accept|send local:chan grpcmux.acceptResult":             "hand-off of the accepted stream to the brokered listener registered for the knocked id (blockedServerListener.Accept)",
+	"grpcmux.GRPCServerMuxer.AcceptKnock|send grpcmux.GRPCServerMuxer.knockCh":        "capacity-1 token consumed by the muxer's Accept loop (R-SLOT checks the capacity)",
 	"grpcmux.blockedClientListener.unblock|send grpcmux.blockedClientListener.waitCh": "capacity-1 token consumed by the listener's Accept (R-SLOT checks the capacity)",
-	"cmdrunner.pidWait|range C":                          "one-second poll of a reattached pid; ends when the process is gone",
-	"CleanupClients|wait local:sync.WaitGroup":           "waits for one Kill per managed client; Kill is bounded",
-	"Client.Kill$1|wait Client.clientWaitGroup":          "Kill waits for the management goroutines, which end when the process is reaped",
-	"Client.Start$2|wait Client.pipesWaitGroup":          "the reaper waits for both pipe readers, which end at EOF of the plugin's pipes",
-	"Client.Start$3|send local:chan string":              "stdout line hand-off; a consumer always exists: Start's select, then the deferred drain goroutine (R-ORDER O4)",
-	"Client.Start$5|range local:chan string":             "drain until the scanner goroutine closes the channel at EOF",
-	"Serve|send local:chan<- *plugin.ReattachConfig":            "test mode only: the test harness receives the reattach config",
-	"Serve|recv local:chan struct{}":                     "after cancellation Serve waits for the server's done channel, closed by Serve()/Quit",
-	"Serve$3|recv local:chan os.Signal":                  "interrupt eater goroutine; lives as long as the plugin process",
-	"gRPCBrokerServer.StartStream$1|send sendErr.ch":     "reply to Send(), which is blocked receiving on this per-call channel",
-	"gRPCBrokerClientImpl.StartStream$1|send sendErr.ch": "reply to Send(), which is blocked receiving on this per-call channel",
-	"gRPCBrokerServer.Send|recv local:chan error":        "reply from the stream pump for the request just handed over",
-	"gRPCBrokerClientImpl.Send|recv local:chan error":    "reply from the stream pump for the request just handed over",
-	"copyChan|send local:chan<- []byte":                  "deliberate back-pressure of synced stdio (C11): the chunk hand-off must stay a blocking send",
+	"cmdrunner.pidWait|range C":                        "one-second poll of a reattached pid; ends when the process is gone",
+	"CleanupClients|wait local:sync.WaitGroup":         "waits for one Kill per managed client; Kill is bounded",
+	"Client.Kill|wait Client.clientWaitGroup":          "Kill waits for the management goroutines, which end when the process is reaped",
+	"Client.Start|wait Client.pipesWaitGroup":          "the reaper waits for both pipe readers, which end at EOF of the plugin's pipes",
+	"Client.Start|send local:chan string":              "stdout line hand-off; a consumer always exists: Start's select, then the deferred drain goroutine (R-ORDER O4)",
+	"Client.Start|range local:chan string":             "drain until the scanner goroutine closes the channel at EOF",
+	"Serve|send local:chan<- *plugin.ReattachConfig":   "test mode only: the test harness receives the reattach config",
+	"Serve|recv local:chan struct{}":                   "after cancellation Serve waits for the server's done channel, closed by Serve()/Quit",
+	"Serve|recv local:chan os.Signal":                  "interrupt eater goroutine; lives as long as the plugin process",
+	"gRPCBrokerServer.StartStream|send sendErr.ch":     "reply to Send(), which is blocked receiving on this per-call channel",
+	"gRPCBrokerClientImpl.StartStream|send sendErr.ch": "reply to Send(), which is blocked receiving on this per-call channel",
+	"gRPCBrokerServer.Send|recv local:chan error":      "reply from the stream pump for the request just handed over",
+	"gRPCBrokerClientImpl.Send|recv local:chan error":  "reply from the stream pump for the request just handed over",
+	"copyChan|send local:chan<- []byte":                "deliberate back-pressure of synced stdio (C11): the chunk hand-off must stay a blocking send",
 }
 
 func ruleBound(c *Ctx) { ruleBoundScoped(c, nil) }
@@ -250,7 +250,7 @@ func ruleBoundScoped(c *Ctx, only func(*Func) bool) {
 			case "C":
 				c.R.Hold("R-BOUND/site", p.Pos(op.Ast), f.Name, op.Desc, "cancellation arm", false)
 			default:
-				if reason, ok := reviewedBare[f.Name+"|"+op.Desc]; ok {
+				if reason, ok := reviewedBare[rootName(f)+"|"+op.Desc]; ok {
 					c.R.Except("R-BOUND/site", p.Pos(op.Ast), f.Name, op.Desc, reason)
 				} else {
 					c.R.Violate("R-BOUND/site", p.Pos(op.Ast), f.Name, op.Desc, "bare blocking operation (no default, timer or cancellation arm) that is not in the reviewed table: it can wait forever", nil)
